@@ -188,6 +188,8 @@ func genFSMCase(r *common.Rng, k int, tier string) (int, []op, []string) {
 		return genLatePersist(r)
 	case family == 2 && (k/10)%2 == 0:
 		return genOrigins(r)
+	case family == 2:
+		return genBurst(r)
 	}
 	n := r.Range(1, 3)
 	nops := r.Range(0, maxOps)
@@ -225,6 +227,9 @@ func randomWalk(r *common.Rng, n, nops, steps int, latePersist bool, epilogue bo
 		}
 		x := r.Intn(100)
 		switch {
+		case x < 4 && nops > 0:
+			// a batch of committed entries applied back to back
+			emit(i, fmt.Sprintf("B%d", r.Range(1, nops)))
 		case x < 52:
 			if p.pending && !latePersist {
 				emit(i, "p")
@@ -421,4 +426,45 @@ func genOrigins(r *common.Rng) (int, []op, []string) {
 		}
 	}
 	return n, ops, ev
+}
+
+// genBurst: histories with a pin immediately followed by the unpin (or re-pin) of the same cid, applied
+// back to back. S = the tracker's Track handler is reached late (forced reordering, K29 stream),
+// B = whatever the scheduler does.
+func genBurst(r *common.Rng) (int, []op, []string) {
+	var ops []op
+	n := r.Range(1, 4)
+	for i := 0; i < n; i++ {
+		c := r.Intn(cidUniverse)
+		t := randPin(r, c, 0, false)
+		ops = append(ops, op{pin: true, tok: t})
+		switch r.Intn(3) {
+		case 0:
+			ops = append(ops, op{pin: false, tok: t})
+		case 1:
+			ops = append(ops, op{pin: false, tok: plainPin(c)})
+		default:
+			ops = append(ops, op{pin: true, tok: randPin(r, r.Intn(cidUniverse), 0, false)})
+		}
+	}
+	code := "B"
+	if r.Chance(1, 2) {
+		code = "S"
+	}
+	var ev []string
+	done := 0
+	for done < len(ops) {
+		step := r.Range(1, 4)
+		if done+step > len(ops) {
+			step = len(ops) - done
+		}
+		done += step
+		if step == 1 && r.Bool() {
+			ev = append(ev, "0a")
+		} else {
+			ev = append(ev, fmt.Sprintf("0%s%d", code, done))
+		}
+	}
+	ev = append(ev, "0s", "0k", "0r")
+	return 1, ops, ev
 }
